@@ -117,6 +117,9 @@ pub(crate) struct LiveEvents<'a> {
 
     /// Error reference that is checked at the end of parsing.
     error: Rc<RefCell<Option<std::io::Error>>>,
+    /// Set once a reader error has been reported: the input is truncated from there on, so
+    /// error recovery must not resynchronise on whatever the parser still makes of it.
+    io_failed: std::cell::Cell<bool>,
 }
 
 /// A single alias-replay stack frame (one active `*alias` expansion).
@@ -191,6 +194,7 @@ impl<'a> LiveEvents<'a> {
             seen_doc_end: false,
 
             error,
+            io_failed: std::cell::Cell::new(false),
         }
     }
 }
@@ -238,6 +242,7 @@ impl<'a> LiveEvents<'a> {
 
             // Error field is provided but for string, nothing is ever reported
             error: Rc::new(RefCell::new(None)),
+            io_failed: std::cell::Cell::new(false),
         }
     }
 
@@ -719,6 +724,7 @@ impl<'a> LiveEvents<'a> {
     #[cold]
     fn io_error(&self) -> Result<(), Error> {
         if let Some(error) = self.error.take() {
+            self.io_failed.set(true);
             Err(Error::IOError { cause: error })
         } else {
             Ok(())
@@ -793,11 +799,19 @@ impl<'a> LiveEvents<'a> {
         self.inject.clear();
         self.rec_stack.clear();
 
+        // After a reader error the rest of the input is not what the reader meant to deliver
+        // (the failed read left a hole that the parser saw as end of input): stop here rather
+        // than yielding values built from a truncated document.
+        if self.io_failed.get() {
+            return false;
+        }
+
         // Pull raw events from the parser until we see DocumentStart or EOF
         while let Some(item) = self.parser.next() {
             let Ok((raw, span)) = item else {
-                // Syntax error while skipping; treat as EOF
-                return false;
+                // Syntax error while skipping; treat as EOF. If the reader failed while we were
+                // skipping, report "there is more" so that the next pull surfaces that error.
+                return self.error.borrow().is_some();
             };
             let location = location_from_span(&span);
             self.last_location = location;
@@ -815,8 +829,9 @@ impl<'a> LiveEvents<'a> {
                     self.produced_any_in_doc = false;
                 }
                 Event::StreamEnd => {
-                    // End of stream
-                    return false;
+                    // End of stream (or a reader error that the parser saw as end of input:
+                    // then the next pull must surface it instead of ending silently).
+                    return self.error.borrow().is_some();
                 }
                 _ => {
                     // Skip all other events (scalars, mappings, sequences, etc.)
@@ -826,6 +841,6 @@ impl<'a> LiveEvents<'a> {
         }
 
         // Parser exhausted
-        false
+        self.error.borrow().is_some()
     }
 }
